@@ -10,8 +10,8 @@ def run(chk, tier):
              "together by a clamped amount, guarded direct stores, return the accumulated length / -1")
     r = snp.SnpRule(P, ["bitmap.c"])
     st = r.run(chk)
-    chk.floor("R-SNP", "producer call sites in bitmap.c", st["producers"], 13)
-    chk.floor("R-SNP", "cursor advance sites in bitmap.c", st["advances"], 10)
+    chk.floor("R-SNP", "producer call sites in bitmap.c", st["producers"], 9)
+    chk.floor("R-SNP", "cursor advance sites in bitmap.c", st["advances"], 7)
     chk.rule("R-SNP-ASPRINTF", "len=F(NULL,0,x); buf=malloc(len+1); return F(buf,len+1,x)")
     snp.asprintf_shape(chk, P, "bitmap.c", [("hwloc_bitmap_asprintf", "hwloc_bitmap_snprintf"),
                                              ("hwloc_bitmap_list_asprintf", "hwloc_bitmap_list_snprintf"),
